@@ -944,7 +944,13 @@ class Engine:
 
                     # get the time step
                     store, states = self._process_state(path)
-                    process_timestep = process.calculate_timestep(states)
+                    if 'deferred' in self.front[path]:
+                        # the process was already asked for this
+                        # interval; it could not run then because the
+                        # interval ends after that call's end time
+                        process_timestep = self.front[path]['deferred']
+                    else:
+                        process_timestep = process.calculate_timestep(states)
 
                     if force_complete:
                         # force the process to complete at end_time
@@ -964,6 +970,7 @@ class Engine:
                         future = round(future, self.global_time_precision)
 
                     if future <= end_time:
+                        self.front[path].pop('deferred', None)
 
                         # calculate the update for this process
                         if process.update_condition(process_timestep, states):
@@ -987,6 +994,10 @@ class Engine:
                             timestep = future - self.global_time
                             full_step = min(full_step, timestep)
                     else:
+                        # the interval ends after end_time: keep the
+                        # process waiting with the timestep it asked for
+                        self.front[path]['deferred'] = process_timestep
+
                         # absolute timestep
                         timestep = future - self.global_time
                         full_step = min(full_step, timestep)
